@@ -171,6 +171,14 @@ func Run(spec RunSpec) (res *RunResult) {
 			// install the configuration through the same path replay uses
 			m.LoadConfig(w, bz)
 		}
+		if !w.Cfg.FaultFree {
+			// drawn from a stream of its own: everything else about a seed's run is as it was
+			// before this fault kind existed
+			w.simRng = NewRand(Mix(spec.Seed, "simulate", 0))
+			if w.simRng.Bool(0.5) {
+				w.Cfg.PSimulate = 0.3 * w.simRng.Float()
+			}
+		}
 		w.Sched.Engine = w.Cfg
 	}
 	w.NeedDenom(sdk.DefaultBondDenom, new(big.Int).Lsh(big.NewInt(1), 100))
@@ -530,6 +538,7 @@ func (w *World) execBlock(bp *BlockPlan) bool {
 	w.SimSpan += time.Duration(bp.DeltaNs)
 	blk := &Block{Height: w.Height, Time: w.Time}
 	var included []*TxPlan
+	var sims [][]byte
 	seqBefore := map[int]uint64{}
 	for _, tp := range bp.Txs {
 		if len(tp.Ops) == 0 {
@@ -547,6 +556,27 @@ func (w *World) execBlock(bp *BlockPlan) bool {
 		signer.Seq++ // optimistic; re-synchronised after the block
 		blk.Txs = append(blk.Txs, bz)
 		included = append(included, tp)
+		if tp.Sim {
+			sims = append(sims, bz)
+		}
+	}
+	for _, bz := range sims {
+		// gas estimation on this node only: executes the messages on a discarded branch of
+		// the check state; on correct code it leaves no trace anywhere
+		ok, err := n.Simulate(bz)
+		if err != nil {
+			w.reportExecError(err, bp, included)
+			return false
+		}
+		w.Hit("fault.simulated_tx")
+		if ok {
+			w.Hit("fault.simulated_tx_ok")
+		}
+	}
+	for _, m := range w.Mods {
+		if h, ok := m.(interface{ AfterSimulate(*World) }); ok && len(sims) > 0 {
+			h.AfterSimulate(w)
+		}
 	}
 	res, err := n.Exec(blk)
 	if err != nil {
@@ -909,6 +939,13 @@ func (w *World) generate(rng *Rand) {
 				}
 			}
 		}
+		if w.Cfg.PSimulate > 0 {
+			for _, tp := range txs {
+				if w.simRng.Bool(w.Cfg.PSimulate) {
+					tp.Sim = true
+				}
+			}
+		}
 		bp.Txs = txs
 		if w.Cfg.PRestart > 0 && rng.Bool(w.Cfg.PRestart) {
 			bp.Faults = append(bp.Faults, Fault{Kind: "restart"})
@@ -984,7 +1021,7 @@ func hasFailTail(tp *TxPlan) bool {
 }
 
 func cloneTx(tp *TxPlan) *TxPlan {
-	cp := &TxPlan{Gas: tp.Gas, NoOOG: tp.NoOOG}
+	cp := &TxPlan{Gas: tp.Gas, NoOOG: tp.NoOOG, Sim: tp.Sim}
 	for _, op := range tp.Ops {
 		o := *op
 		cp.Ops = append(cp.Ops, &o)
